@@ -1,5 +1,5 @@
 (* C12 — constructors store exactly what was passed or refuse it. *)
-From Secs Require Import Ast FloatProofs Fill Msg Api WireSpec WireLemmas WireValues WireEnc WireDec MsgProofs AstProofs FillProofs.
+From Secs Require Import Ast FloatProofs FloatRound Fill Msg Api WireSpec WireLemmas WireValues WireEnc WireDec MsgProofs AstProofs FillProofs.
 Open Scope Z_scope.
 
 (* the five value-item factories: every stored element is the mathematical
@@ -40,6 +40,13 @@ Print Assumptions C12_leaf_refused.
 Theorem C12_float32_finite : forall b, is_u64 b -> f64_finite b = true -> abs_le_maxf32 b = true -> f32_finite (f64_to_f32 b) = true.
 Proof. exact f64_to_f32_finite. Qed.
 Print Assumptions C12_float32_finite.
+
+(* a float32 value survives the float64 detour every factory and the parser take:
+   widening (exact, subnormals normalised) then narrowing (round to nearest even)
+   is the identity on every finite float32 bit pattern — zeros, subnormals, normals *)
+Theorem C12_float32_roundtrip : forall b, is_u32 b -> f32_finite b = true -> f64_to_f32 (f32_to_f64 b) = b.
+Proof. exact f32_roundtrip. Qed.
+Print Assumptions C12_float32_roundtrip.
 
 Theorem C12_ascii : forall s,
   (new_ascii s = Some (IAscii s) /\ Z.of_nat (length s) <= 16777215 /\ Forall (fun b => b2z b < 128) s) \/
